@@ -139,6 +139,17 @@ func (o *FairShareOracle) laws(r *Run, parent, res string, T float64, qs []*fsq)
 			}
 		}
 	}
+	// a leftover below one whole unit: the division hands fractions on as well (a higher priority tier capped at 3.5 of 5
+	// leaves 1.5 for the tier below). Judged when some unsatisfied queue with positive effective weight could take the
+	// whole leftover.
+	if left := T - sumF; left >= 0.01 && left < 1+eps && T-sumDeserved > 0 {
+		for _, q := range qs {
+			if effective(q) > 1e-9 && !q.satisfied && q.capped-q.F >= left-eps {
+				r.Fail("C09", "undistributed_fraction", "%v left undistributed although queue %s (weight %v) is unsatisfied (F=%v < capped request %v); %s", left, q.name, q.W, q.F, q.capped, desc())
+				break
+			}
+		}
+	}
 	// priorities: highest priority with a positive-weight queue unsatisfied by more than a unit
 	effectiveAtPrio := func(q *fsq) float64 { // surplus is divided priority by priority: weights are normalised within the priority
 		tw := 0.0
